@@ -337,3 +337,88 @@ class SearchDuplicate(Contract):
             return z3.If(rt == sv("L"), want_L, z3.If(z3.Or(rt == sv("S"), rt == sv("E")), by_name, z3.BoolVal(v is None)))
         return [Case("kinds", [gfa, line], post, pre=[prt], heap=heap, models=models,
                      symbols=dict(record_type=rt, link_with_same_ends_stored=found, that_link_is_a_placeholder=found_virtual, identifier_in_use=named, identifier_names_that_link=same))]
+
+
+@register
+class RemoveNonfieldBackreferences(Contract):
+    fn = "gfapy/line/common/disconnection.py::Disconnection._remove_nonfield_backreferences"
+    props = ("C05", "C02")
+    fragment = "L"
+    doc = ("when a gap leaves the Gfa, every set and every path that lists it has the mention dropped (_remove_backreference, exactly once per group, over a snapshot "
+           "of each collection), and a group that is left without any item - it listed nothing but the gap - is disconnected, exactly once, iff it is still connected "
+           "at that moment; no other line is disconnected here (two passes of one loop, one per collection; loop invariant with the counts of both). "
+           "Assumed: a group occurs once in the collections of the gap")
+
+    def cases(self, ctx):
+        import builtins
+        g = ctx.gfapy
+        from .refs import refs_heap, AII
+        AIB_ = z3.ArraySort(I, B)
+        h0 = refs_heap()
+        h0["visited"] = z3.Const("visited_count", AII)
+        h0["disconnected"] = z3.Const("disconnect_count", AII)
+        h0["items"] = z3.Const("n_items", AII)
+        left_after = z3.Const("n_items_left_after_the_drop", AII)
+        is_group = z3.Const("is_a_group", AIB_)
+        conn_then = z3.Const("connected_when_asked", AIB_)
+        s = Ref(z3.Int("self"), g.line.Gap)                       # Gap.OTHER_REFERENCES = ["sets", "paths"]
+        keys = list(g.line.Gap.OTHER_REFERENCES)
+        has = {k: h0["refs_has"][s.t][sv(k)] for k in keys}
+        lid = {k: h0["refs"][s.t][sv(k)] for k in keys}
+        n0 = {k: z3.If(has[k], h0["L_n"][lid[k]], 0) for k in keys}
+        e0 = {k: h0["L_e"][lid[k]] for k in keys}
+        j, t = z3.Int("j"), z3.Int("t")
+        j1, j2 = z3.Ints("j1 j2")
+        def m_drop(E, st, pos, kw):
+            self_, ref, k_ = pos
+            zh = dict(st.zh)
+            zh["visited"] = z3.Store(zh["visited"], ref.t, zh["visited"][ref.t] + 1)
+            zh["items"] = z3.Store(zh["items"], ref.t, left_after[ref.t])
+            # the group rewrites its own lists; of the gap's collections only the one being walked may change (arbitrary new contents): a set is not a path
+            cur = lid[conc(k_)]
+            zh["L_n"] = z3.Store(zh["L_n"], cur, fresh("n_after", I)); zh["L_e"] = z3.Store(zh["L_e"], cur, fresh("e_after", AII))
+            yield ("val", None, [], st.with_zh(zh.copy()).with_ghost("current_key", conc(k_)))
+        def m_isinstance(E, st, pos, kw):
+            x, c = pos
+            if isinstance(x, Ref) and c is g.line.group.Group:
+                yield ("val", is_group[x.t], [])
+            else:
+                raise Unsupported("isinstance(%r, %r)" % (x, c))
+        def m_conn(E, st, pos, kw):
+            yield ("val", conn_then[pos[0].t], [])
+        def m_disconnect(E, st, pos, kw):
+            zh = dict(st.zh)
+            zh["disconnected"] = z3.Store(zh["disconnected"], pos[0].t, zh["disconnected"][pos[0].t] + 1)
+            cur = lid[st.ghost.get("current_key", keys[0])]
+            zh["L_n"] = z3.Store(zh["L_n"], cur, fresh("n_after", I)); zh["L_e"] = z3.Store(zh["L_e"], cur, fresh("e_after", AII))
+            yield ("val", None, [], st.with_zh(zh))
+        D = "gfapy/line/common/disconnection.py::Disconnection."
+        models = {ctx.fn(D + "_remove_backreference"): m_drop, builtins.isinstance: m_isinstance,
+                  ctx.fn("gfapy/line/common/connection.py::Connection.is_connected"): m_conn, ctx.fn(D + "disconnect"): m_disconnect}
+        # (inverse of the two snapshots: in which collection and where a line is listed; -1 = in neither. This is the assumption "a group occurs once")
+        where, posn = z3.Const("collection_of_line", AII), z3.Const("position_of_line", AII)
+        def goes(tt):
+            return z3.And(is_group[tt], conn_then[tt], left_after[tt] == 0)
+        def handled(tt, done):
+            return z3.Or(*[z3.And(where[tt] == keys.index(k), posn[tt] < done[k]) for k in keys])
+        def state(zh, done):            # done: key -> number of positions of its snapshot already handled
+            return z3.ForAll([t], z3.And(zh["visited"][t] == z3.If(handled(t, done), 1, 0), zh["disconnected"][t] == z3.If(z3.And(handled(t, done), goes(t)), 1, 0)))
+        def inv(i, st):
+            k_now = conc(st.env["k"])
+            idx = keys.index(k_now)
+            done = {k: (n0[k] if keys.index(k) < idx else (i if k == k_now else z3.IntVal(0))) for k in keys}
+            # the collections still to be walked are as they were (a set is not a path: dropping a mention from one kind of group leaves the other collection alone)
+            later = [z3.And(st.zh["L_n"][lid[k]] == h0["L_n"][lid[k]], st.zh["L_e"][lid[k]] == e0[k]) for k in keys if keys.index(k) > idx]
+            return z3.And(0 <= i, i <= n0[k_now], state(st.zh, done), *later)
+        pre = [z3.ForAll([t], z3.And(h0["visited"][t] == 0, h0["disconnected"][t] == 0)), lid[keys[0]] != lid[keys[1]], z3.ForAll([t], posn[t] >= 0)]
+        for k in keys:
+            pre += [z3.Implies(has[k], z3.And(h0["L_n"][lid[k]] >= 0, lid[k] < h0["next_list"])),
+                    z3.ForAll([j], z3.Implies(z3.And(0 <= j, j < n0[k]), z3.And(where[e0[k][j]] == keys.index(k), posn[e0[k][j]] == j))),
+                    z3.ForAll([t], z3.Implies(where[t] == keys.index(k), z3.And(posn[t] < n0[k], e0[k][posn[t]] == t)))]
+        invs = {("Disconnection._remove_nonfield_backreferences", 1): dict(inv=inv, modheap=["visited", "disconnected", "items", "L_n", "L_e"], mod={"ref": lambda nm: Ref(fresh(nm, I), g.Line)})}
+        def post(kd, v, st):
+            if kd == "raise":
+                return z3.BoolVal(False)
+            return state(st.zh, {k: n0[k] for k in keys})
+        return [Case("gap", [s], post, pre=pre, zh=h0, models=models, invariants=invs, symbols={}, options={"list_mk": lambda t: Ref(t, g.Line)},
+                     replay=lambda w: {"target": "bounded.replay_helpers:emptied_group_cases"}, confirm=battery_confirm)]
